@@ -13,7 +13,7 @@ for d in sorted(glob.glob(V + '/seeded/*/'), key=key):
     m = json.load(open(d + 'meta.json'))
     det = m['detected_by']
     rep = ', '.join('%s %s(%s)' % (p, 'YES ' if r['detected'] else '**no** ', r['violations']) for p, r in sorted(det.items())) or 'not run'
-    org = 'fix reversed' if m['id'].startswith('ORIG') else 'agent r%d' % {'m': 1, 'n': 2, 'p': 3}[m['id'].split('-')[1][0]]
+    org = 'fix reversed' if m['id'].startswith('ORIG') else 'agent r%d' % {'m': 1, 'n': 2, 'p': 3, 'q': 4}[m['id'].split('-')[1][0]]
     needs = m['needs_to_manifest'].replace('|', '\\|').replace('\n', ' ')
     needs = needs[:170] + ('…' if len(needs) > 170 else '')
     print('| %s | %s | %s | %s |' % (m['id'], org, needs, rep))
